@@ -587,3 +587,23 @@ Proof.
       * destruct (IH _ _ H1) as [m Hm]. exists (1 + m). rewrite run_repeat_app. exact Hm.
       * exists 1. cbn. exists Dead. auto.
 Qed.
+
+(* ---------------- error reports ---------------- *)
+(* `Log::log` hands the errors of a record's failed deliveries to `shared.err_handler` of the SharedLogger it
+   loaded at the top (src/lib.rs): handler and appender table are fields of the same snapshot.  With `fails`
+   saying which deliveries fail, the reports of a record are its failed deliveries, each owned by the handler of
+   the snapshot whose tag the delivery carries. *)
+Definition reports (fails : N -> nat -> rid -> bool) (r : rid) (tr : list event) : list (N * nat) :=
+  filter (fun d => fails (fst d) (snd d) r) (deliveries r tr).
+
+Theorem reports_by_loaded_snapshot :
+  forall fails reent c0 progs sch tid k s pre post d,
+    trace (Swap.run reent sch (init_state c0 progs)) = pre ++ ELoad (tid, k) s :: post ->
+    In d (reports fails (tid, k) (trace (Swap.run reent sch (init_state c0 progs)))) ->
+    fst d = fst s /\
+    exists tg L, nth_error (nth tid progs []) k = Some (OLog tg L) /\ In d (route s tg L).
+Proof.
+  intros fails reent c0 progs sch tid k s pre post d Htr Hin.
+  unfold reports in Hin. apply filter_In in Hin. destruct Hin as [Hd _].
+  exact (single_tag reent c0 progs sch tid k s pre post d Htr Hd).
+Qed.
